@@ -24,7 +24,7 @@ def default_then(chk, cfg, trait, method, first, rule):
     got = ""
     if len(r) == 1 and not r[0].guards:
         base, ids = an.peel_posts(r[0].raw.ret)
-        N = nf.Norm(env=r[0].raw.env)
+        N = an.norm_of(r[0])
         nb = N(base)
         evs = [x for x in r[0].calls if x[3].idx in ids]
         got = "%s then %s" % (show(nb), [x[0] for x in evs])
